@@ -162,11 +162,8 @@ package keeper
 // verif:import banktypes github.com/cosmos/cosmos-sdk/x/bank/types
 // verif:pred registered(m, p) := kvget(m, pairKey(p.GetID())) == pbmarshal_TokenPair(p) && kvget(m, erc20Key(p.GetERC20Contract())) == p.GetID() && (forall j int :: 0 <= j && j < len(p.Denoms) ==> kvget(m, denomKey(p.Denoms[j])) == p.GetID())
 
-// Note: RegisterCoin/AddCoin check IsDenomRegistered(coinMetadata.Name) but index coinMetadata.Base. "The base
-// denomination is not yet registered" is nevertheless not claimed as a postcondition: it holds on this tree only
-// because verifyMetadata rejects every coin that already has bank metadata (EqualMetadata compares the
-// *DenomUnit pointers), and every registered denomination has bank metadata - a cross-module fact no contract
-// here establishes. See /verif/DESIGN.md section 10, #13.
+// (until fix "RegisterCoin and AddCoin check the base denomination" both functions looked up coinMetadata.Name while the
+// index is keyed by coinMetadata.Base; [base-unused] below now states that the registered denomination was unused)
 // verif:func (Keeper).RegisterCoin
 // the registered denomination (the index is keyed by the metadata's Base) was not registered before: no denomination
 // belongs to two pairs
